@@ -1,6 +1,8 @@
 //! Wasm engine monitors: C01 (conformance), C02 (metering), C09 (validation
 //! totality/soundness), C13 (artifact persistence, interrupt/resume).
 mod c01;
+mod c02;
+mod c13;
 mod common;
 
 use vmon_core::{ChildCtx, Engine, Plan, SanTier, Shard, Tier};
@@ -16,7 +18,7 @@ const ASSUME: &[&str] = &[
 impl Engine for WasmEngine {
     fn name(&self) -> &'static str { "eng-wasm" }
 
-    fn props(&self) -> Vec<&'static str> { vec!["C01"] }
+    fn props(&self) -> Vec<&'static str> { vec!["C01", "C02", "C13"] }
 
     fn plan(&self, prop: &str, tier: Tier) -> Plan {
         let quick = tier == Tier::Quick;
@@ -33,6 +35,24 @@ impl Engine for WasmEngine {
                     SanTier { name: "miri", shards: 16, cases: if quick { 40 } else { 2000 }, timeout_s: if quick { 600 } else { 3600 }, budget_s: if quick { 45 } else { 1200 } },
                 ];
             }
+            "C02" => {
+                p.cases = if quick { 300 } else { 40_000 };
+                p.timeout_s = if quick { 600 } else { 3 * 3600 };
+                p.hang_is_violation = true;
+                p.rule = "case = generated valid module (40% loop-heavy profile) run on every export with 2 argument vectors under metered-V0 and metered-V1 artifacts; evaluations = metered executions judged against the transcribed cost schedule (plus one per budget-sweep run); distinct_nontrivial = distinct modules with an execution of >= 3 positive charges and >= 1 loop back-edge or host call".into();
+                p.floors = vec![("energy.exact".into(), 1000), ("energy.trap_at_least".into(), 50), ("grow.events".into(), 10), ("budget.ooe_observed".into(), 200), ("budget.exact_remaining".into(), 200), ("ticks.positive".into(), 10_000), ("modules.nontrivial".into(), 50)];
+            }
+            "C13" => {
+                p.cases = if quick { 250 } else { 30_000 };
+                p.timeout_s = if quick { 600 } else { 3 * 3600 };
+                p.crash_is_violation = true;
+                p.rule = "case = generated valid module (imports forced on in 3/4) x {plain, metered-V0, metered-V1} artifact; evaluations = executions compared with the uninterrupted run of the freshly compiled artifact (zero-copy form parsed at an odd address, reloaded owned form, interrupt masks: all, each of the first 5 call sites, 3 random) plus one per serialisation round-trip; distinct_nontrivial = distinct modules with an execution making >= 2 host calls".into();
+                p.floors = vec![("artifact.roundtrips".into(), 500), ("forms.borrowed_agrees".into(), 1000), ("interrupts.agree".into(), 1000), ("interrupts.total".into(), 2000), ("interrupts.nested_depth_ge_2".into(), 50), ("interrupts.runs_with_two_or_more".into(), 100)];
+                p.san = vec![
+                    SanTier { name: "asan", shards: 16, cases: if quick { 20 } else { 1500 }, timeout_s: if quick { 600 } else { 3600 }, budget_s: if quick { 45 } else { 1500 } },
+                    SanTier { name: "miri", shards: 16, cases: if quick { 40 } else { 2000 }, timeout_s: if quick { 600 } else { 3600 }, budget_s: if quick { 45 } else { 1200 } },
+                ];
+            }
             _ => {}
         }
         p
@@ -41,6 +61,8 @@ impl Engine for WasmEngine {
     fn run_child(&self, ctx: &ChildCtx, out: &mut Shard) {
         match ctx.prop.as_str() {
             "C01" => c01::run(ctx, out),
+            "C02" => c02::run(ctx, out),
+            "C13" => c13::run(ctx, out),
             _ => out.inconclusive.push("unknown property".into()),
         }
     }
